@@ -5,11 +5,13 @@ import Driver.Common
 case:  `d=<n> k=<val|exc|base|self> ig=<0|1> D=<n> c=<n|->`
         d  virtual instant at which the function's own delay is over (0 = it never suspends)
         k  how it ends, ig = swallows the first cancellation, D = the timeout,
-        c  instant at which `cancel()` is called on the caller (`-` = never)
+        c  instant at which `cancel()` is called on the caller (`-` = never); `<t>+<k>` = k single
+           loop iterations into instant t (between the callbacks that instant's events trigger)
 out:   `out=<res|exc|base|timeout|cancelled|hang>@<t|-> at=<fn status when the caller got its outcome>
         end=<finished|cancelled|running> seen=<cancellations delivered inside the function>
         pend=<tasks not done at final quiescence> handler=<loop exception handler calls>
-        tm=<wrapper timers still armed once caller and function are both done>`
+        tm=<wrapper timers still armed once caller and function are both done>
+        acc=<what cancel() on the caller returned: 1 = the caller had not finished>`
 
 The environment events (function's delay over, deadline, caller cancellation) happen at their
 virtual instants in increasing order; everything the loop does in between takes no time.  At one
@@ -31,6 +33,7 @@ structure D where
   ended : Option String := none     -- how the function ended
   outAt : Option Nat := none        -- instant at which the caller resumed
   atStatus : Option String := none  -- function status at the end of that instant
+  acc : Option Bool := none        -- what `cancel()` on the caller returned (true = caller not done yet)
   tmAt : Option Nat := none         -- timers of the wrapper still armed at the end of the first
                                     -- instant at which caller and function are both done
 
@@ -61,9 +64,12 @@ def applyExt (d : D) (e : Ext) : D :=
   | .timer => match step d.s .timerFires with   -- a cancelled handle is not run
     | some s' => { d with s := s' }
     | none => d
-  | .cancel => match step d.s .callerCancel with   -- cancel() on a finished / already cancelled caller: no-op
-    | some s' => { d with s := s' }
-    | none => d
+  | .cancel =>
+    -- `Task.cancel()` answers True unless the caller is already done
+    let acc := match d.s.caller with | .waiting _ => true | .done _ => false
+    match step d.s .callerCancel with   -- cancel() on a finished / already cancelled caller: no-op
+    | some s' => { d with s := s', acc := some acc }
+    | none => { d with acc := some acc }
 
 def showOut : COut → String
   | .res => "res" | .excUser => "exc" | .excBase => "base" | .timeout => "timeout" | .cancelled => "cancelled"
@@ -75,7 +81,7 @@ def render (d : D) : String :=
   let pend := (match d.s.caller with | .waiting _ => 1 | .done _ => 0)
             + (match d.s.tsk with | .running _ _ => 1 | _ => 0)
   let fin := match d.ended with | some e => e | none => "running"
-  s!"{out} at={match d.atStatus with | some a => a | none => "-"} end={fin} seen={d.seen} pend={pend} handler=0 tm={match d.tmAt with | some n => toString n | none => "-"}"
+  s!"{out} at={match d.atStatus with | some a => a | none => "-"} end={fin} seen={d.seen} pend={pend} handler=0 tm={match d.tmAt with | some n => toString n | none => "-"} acc={match d.acc with | some true => "1" | some false => "0" | none => "-"}"
 
 def removeOne (e : Ext) : List Ext → List Ext
   | [] => []
@@ -120,8 +126,14 @@ def runCase (line : String) : String :=
         field toks "D" >>= String.toNat?, field toks "c" with
   | some d, some k, some ig, some dl, some c =>
     let evs := insertEv d .fin (insertEv dl .timer [])
+    -- `c=<t>+<k>`: the cancellation is placed k loop iterations into instant t; the model does not
+    -- count iterations, it admits every position among that instant's labels
+    let cInstant := match c.splitOn "+" with
+      | [a] => a
+      | [a, k] => if k.toNat?.isSome then a else "bad"
+      | _ => "bad"
     let evs? : Option (List (Nat × List Ext)) :=
-      if c = "-" then some evs else (c.toNat?).map (fun t => insertEv t .cancel evs)
+      if c = "-" then some evs else (cInstant.toNat?).map (fun t => insertEv t .cancel evs)
     match evs?, (if ig = "1" then some true else if ig = "0" then some false else none) with
     | some evs, some igb =>
       let d0 : D := { s := init k igb }
@@ -130,8 +142,8 @@ def runCase (line : String) : String :=
         | _ => explore 200 d0 0 [] evs
       -- a cancellation at the very instant of the call may also reach the caller before the
       -- wrapper has created anything: the function then never runs
-      let res := if c = "0" then
-          ("out=cancelled@0 at=unstarted end=unstarted seen=0 pend=0 handler=0 tm=0" :: res).eraseDups
+      let res := if cInstant = "0" then
+          ("out=cancelled@0 at=unstarted end=unstarted seen=0 pend=0 handler=0 tm=0 acc=1" :: res).eraseDups
         else res
       let sorted := (res.toArray.qsort (· < ·)).toList
       match sorted with
